@@ -262,6 +262,12 @@ fn one_case(ctx: &Ctx, case: u64, l: &mut Local) {
                 ops.push(CharOp::Del);
                 ops.push(CharOp::Ins(*r.pick(&alpha)));
             }
+            // an escape character in front of every character that is not a letter or digit ('-', '_', '.':
+            // a reader that "unescapes" Markdown, shell or URL text would restore the signed text)
+            if text.as_bytes().get(pos).map(|b| !b.is_ascii_alphanumeric()).unwrap_or(false) {
+                ops.push(CharOp::Ins('\\'));
+                ops.push(CharOp::Ins(*r.pick(&['%', '^', '`', '\'', '&'])));
+            }
             // at the borders of the string / of each segment every insertion character is tried
             // (a '.' or '=' appended behind the signature is a classic lenient-parser case)
             let at_border = pos == 0 || pos == text.len() || text.as_bytes().get(pos) == Some(&b'.') || (pos > 0 && text.as_bytes()[pos - 1] == b'.');
@@ -516,6 +522,21 @@ fn one_case(ctx: &Ctx, case: u64, l: &mut Local) {
             for (hs, a) in [("HS256", jsonwebtoken::Algorithm::HS256), ("HS384", jsonwebtoken::Algorithm::HS384), ("HS512", jsonwebtoken::Algorithm::HS512)] {
                 let forged = api::sign_raw(&json!({"alg": hs, "typ": "JWT"}), &payload, a, &jsonwebtoken::EncodingKey::from_secret(&secret));
                 structural(&mut j, &format!("{}-keyed-with-public-key-{name}", hs.to_lowercase()), Some(forged), &fixed);
+                // JSON form: the same forgery as an RFC 7797 document (`b64: false`, payload member = the claims as
+                // plain JSON text, MAC over protected + '.' + that text): another way into the signature check
+                if fmt == Fmt::Json && hs == "HS256" {
+                    let hdr = crate::model::b64e(json!({"alg": hs, "b64": false, "crit": ["b64"]}).to_string().as_bytes());
+                    let text = payload.to_string();
+                    if let Ok(sig) = jsonwebtoken::crypto::sign(format!("{hdr}.{text}").as_bytes(), &jsonwebtoken::EncodingKey::from_secret(&secret), a) {
+                        for pm in [json!(text), payload.clone()] {
+                            let doc = json!({"protected": hdr, "payload": pm, "signature": sig, "disclosures": t.parts.disclosures}).to_string();
+                            let v = api::verify(&doc, &fixed, None, fmt);
+                            j.l.count("fault.structural.kind.unencoded-payload-keyed-with-public-key");
+                            j.l.distinct(crate::rng::mix(case ^ gen::hash_str(name) ^ 0xb64));
+                            j.reject("structural", &format!("b64:false document, HS256 keyed with the public key ({name}) ({} JSON)", alg.name()), Some(v), || json!({"secret_form": name}));
+                        }
+                    }
+                }
             }
         }
     }
@@ -689,6 +710,35 @@ fn one_case(ctx: &Ctx, case: u64, l: &mut Local) {
                     j.l.count("fault.structural.kind.unprotected-header-overrides");
                     j.l.distinct(crate::rng::mix(case ^ gen::hash_str(mname) ^ ((k as u64) << 4) ^ 0x77));
                     j.reject("structural", &format!("signed by key 1, protected kid k0, unprotected `{mname}` says k1 ({} JSON)", alg.name()), Some(v), || json!({"document": text}));
+                }
+            }
+        }
+    }
+    // ---- JSON only: the protected header has NO kid (jku, x5u ...) at all and an unprotected `header` member
+    // supplies one: the resolver must see exactly the protected header (no kid -> it answers with key 1),
+    // so the token, which was signed with key 0, fails
+    if fmt == Fmt::Json && t.kb.is_none() {
+        let payload: Value = t.parts.payload().unwrap_or(Value::Null);
+        let jwt = api::sign_raw(&json!({"alg": alg.name()}), &payload, alg.jwt(), &keys::issuer_enc(alg, 0));
+        if let Some(sg) = tamper::segments(&jwt) {
+            for (k, unprot) in [json!({"kid": "k0"}), json!({"kid": "k0", "jku": "https://issuer.example/A/jwks", "x5u": "https://issuer.example/A/cert", "cty": "json"})].iter().enumerate() {
+                for mname in ["header", "unprotected"] {
+                    let mut m = serde_json::Map::new();
+                    m.insert("protected".into(), json!(sg[0]));
+                    m.insert("payload".into(), json!(sg[1]));
+                    m.insert("signature".into(), json!(sg[2]));
+                    m.insert("disclosures".into(), json!(t.parts.disclosures));
+                    m.insert(mname.into(), unprot.clone());
+                    let text = Value::Object(m).to_string();
+                    let v = api::verify(&text, &Resolver::ByKid(alg), None, fmt);
+                    if let Some(c) = v.resolver_calls.first() {
+                        if ["kid", "jku", "x5u", "cty"].iter().any(|k| c.header.get(*k).map(|x| !x.is_null()).unwrap_or(false)) {
+                            j.l.violate(Violation { subcheck: "resolver-invocation".into(), class: "unprotected header member".into(), observed: "resolver saw parameters that are not in the protected header".into(), case, detail: json!({"document": text, "resolver_saw": c.header}) });
+                        }
+                    }
+                    j.l.count("fault.structural.kind.unprotected-header-fills-in");
+                    j.l.distinct(crate::rng::mix(case ^ gen::hash_str(mname) ^ ((k as u64) << 4) ^ 0x78));
+                    j.reject("structural", &format!("signed by key 0, no protected kid, unprotected `{mname}` says k0, resolver keyed by kid ({} JSON)", alg.name()), Some(v), || json!({"document": text}));
                 }
             }
         }
